@@ -130,15 +130,15 @@ Theorem C02_accept_coherent : forall p c, msg_ok p = true -> from_proto p = Ok c
 Proof. exact accept_coherent. Qed.
 
 (* ---------- finite tables over the generated files ---------- *)
-(* the seven enums of the schema, both inclusions *)
+(* the seven enums of the schema (in the canonical order of gen/Schema.v: sorted by name), both inclusions *)
 Theorem C02_enum_total : forall nm, In nm (map fst schema_enums) ->
-  In nm ["EdgeType"; "DecodeMode"; "FileFormat"; "ISA"; "ByteOrder"; "SectionFlag"; "SymAttribute"]
+  In nm ["ByteOrder"; "DecodeMode"; "EdgeType"; "FileFormat"; "ISA"; "SectionFlag"; "SymAttribute"]
   /\ schema_members nm <> []
   /\ (forall sn v, In (sn, v) (schema_members nm) -> enum_ok nm v = true)
   /\ (forall pn v, In (pn, v) (enum_members nm) -> exists sn, In (sn, v) (schema_members nm)).
 Proof. exact enum_total. Qed.
 
-Theorem C02_enum_names : map fst schema_enums = ["EdgeType"; "DecodeMode"; "FileFormat"; "ISA"; "ByteOrder"; "SectionFlag"; "SymAttribute"].
+Theorem C02_enum_names : map fst schema_enums = ["ByteOrder"; "DecodeMode"; "EdgeType"; "FileFormat"; "ISA"; "SectionFlag"; "SymAttribute"].
 Proof. exact (proj1 enum_tables_agree). Qed.
 
 (* every enum constant the schema defines passes the reader's check *)
